@@ -64,3 +64,92 @@ pub fn flag_set(i: usize) -> ConsensusFlags {
     }
 }
 pub const NUM_FLAG_SETS: usize = 8;
+
+/// a CLVM program that evaluates to the value `node`, computing some of its
+/// atoms — list terminators in particular — at run time (`substr`, `concat`,
+/// `+`, `-`), so that they are heap-allocated atoms rather than the canonical
+/// nil / small-integer nodes. `budget` bounds the number of `c` nodes.
+pub fn computed_program(t: &mut Tree, node: Tid, s: &mut crate::src::Src<'_>, budget: &mut usize, depth: usize) -> Tid {
+    use crate::gentree::TNode;
+    let q = t.atom(&[1]);
+    let quote = |t: &mut Tree, n: Tid| -> Tid { t.pair(q, n) };
+    match t.get(node).clone() {
+        TNode::Atom(b) => {
+            if !s.chance(150) {
+                return quote(t, node);
+            }
+            if b.is_empty() {
+                match s.below(3) {
+                    0 => {
+                        // (substr "hello!" k k): an empty atom that is not the nil node
+                        let op = t.atom(&[12]);
+                        let src = t.atom(b"hello!");
+                        let qs = quote(t, src);
+                        let k = 1 + s.below(5) as u8;
+                        let ka = t.atom(&[k]);
+                        let qk = quote(t, ka);
+                        t.list(&[op, qs, qk, qk])
+                    }
+                    1 => {
+                        let op = t.atom(&[14]);
+                        let n = t.nil();
+                        let qn = quote(t, n);
+                        t.list(&[op, qn, qn])
+                    }
+                    _ => {
+                        let op = t.atom(&[17]);
+                        let five = t.atom(&[5]);
+                        let q5 = quote(t, five);
+                        t.list(&[op, q5, q5])
+                    }
+                }
+            } else if b.len() >= 2 {
+                let op = t.atom(&[14]);
+                let mid = 1 + s.below(b.len() - 1);
+                let h = t.atom(&b[..mid]);
+                let tl = t.atom(&b[mid..]);
+                let qh = quote(t, h);
+                let qt = quote(t, tl);
+                t.list(&[op, qh, qt])
+            } else if b[0] >= 2 && b[0] < 0x80 {
+                let op = t.atom(&[16]);
+                let one = t.atom(&[1]);
+                let rest = t.atom(&[b[0] - 1]);
+                let q1 = quote(t, one);
+                let qr = quote(t, rest);
+                t.list(&[op, q1, qr])
+            } else {
+                quote(t, node)
+            }
+        }
+        TNode::Pair(l, r) => {
+            if *budget == 0 || depth > 60 {
+                return quote(t, node);
+            }
+            *budget -= 1;
+            let lp = if s.chance(110) { computed_program(t, l, s, budget, depth + 1) } else { quote(t, l) };
+            let rp = computed_program(t, r, s, budget, depth + 1);
+            let c = t.atom(&[4]);
+            t.list(&[c, lp, rp])
+        }
+    }
+}
+
+/// `CoinSpend`s of a bundle generated with `cfg.eval_puzzles`: the solution of
+/// every spend is `(program)` where `program` computes the spend's condition
+/// list at run time
+pub fn coin_spends_computed(b: &mut GenBundle, s: &mut crate::src::Src<'_>) -> Vec<CoinSpend> {
+    let mut out = vec![];
+    for i in 0..b.spends.len() {
+        let sp = b.spends[i].clone();
+        let mut budget = 40usize;
+        let prog = computed_program(&mut b.tree, sp.cond_list, s, &mut budget, 0);
+        let sol = b.tree.list(&[prog]);
+        out.push(CoinSpend::new(
+            Coin::new(sp.parent.into(), sp.puzzle_hash.into(), sp.amount),
+            Program::from(b.tree.serialize(sp.puzzle)),
+            Program::from(b.tree.serialize(sol)),
+        ));
+    }
+    out
+}
